@@ -613,6 +613,8 @@ class Facts:
             h = self._single_caller_hosts().get("%s/%d" % (qn, nparams))
             if h is not None and not self.by_qn.get(qn):
                 hc = [f for f in self.by_qn.get(h["qn"], []) if len(f.params) == h["nparams"]]
+                if len(hc) > 1:
+                    hc = [f for f in hc if f.key == h.get("key")] or sorted(hc, key=lambda f: -len(f.nodes))[:1]
                 if len(hc) == 1:
                     self.inlined_into["%s/%d" % (qn, nparams)] = hc[0].key
                     return hc[0]
